@@ -70,6 +70,31 @@ TRANS = [
     ("def leaf(c):\n    return c.zz\n", []),
     ("# note\ndef leaf(c):\n    return c.z\n", []),
 ]
+
+
+def _block_size():
+    """Default block size of the chunked read in hash_file_content (read from the live signature)."""
+    try:
+        import inspect
+
+        from rattr.models.util.hash import hash_file_content
+
+        b = inspect.signature(hash_file_content).parameters["blocksize"].default
+        return b if isinstance(b, int) and 0 < b <= 1 << 24 else 1 << 20
+    except Exception:
+        return 1 << 20
+
+
+BLOCK = _block_size()
+_LINE = "# padding line {:07d} " + "." * 56 + "\n"
+# more than two read blocks of comment lines: the code (and every edit) lies after the 2nd block boundary
+PAD = "".join(_LINE.format(i) for i in range((2 * BLOCK + 300_000) // len(_LINE.format(0)) + 1))
+# big-file variants: identical padding, the small variants' code at the very END of the file
+BIG = {"target": (4, 5), "direct": (4, 5), "trans": (3, 4)}
+TARGET += [(PAD + TARGET[0][0], ["direct"]), (PAD + TARGET[2][0], ["direct"])]
+DIRECT += [(PAD + DIRECT[0][0], ["trans"]), (PAD + DIRECT[1][0], ["trans"])]
+TRANS += [(PAD + TRANS[0][0], []), (PAD + TRANS[1][0], [])]
+
 # hashed = (follow level, excluded imports, excluded names); other = un-hashed options
 OPTIONS = [
     {"args": [], "follow": 1, "F": [], "x": [], "other": ""},
@@ -80,6 +105,11 @@ OPTIONS = [
     {"args": ["--threshold", "1"], "follow": 1, "F": [], "x": [], "other": "--threshold 1"},
     {"args": ["-F", "direct"], "follow": 1, "F": ["direct"], "x": [], "other": ""},
     {"args": ["-f", "2"], "follow": 2, "F": [], "x": [], "other": ""},
+    # exclusion patterns that match the dotted name of an imported MEMBER (trans.leaf, direct.helper)
+    # but no module: nothing is excluded, every module is still followed and must be recorded
+    {"args": ["-F", r".*\.leaf"], "follow": 1, "F": [r".*\.leaf"], "x": [], "other": ""},
+    {"args": ["-F", r"direct\.helper"], "follow": 1, "F": [r"direct\.helper"], "x": [], "other": ""},
+    {"args": ["-F", r".*\.[hl]\w+", "-F", r".*\._\w+"], "follow": 1, "F": [r".*\.[hl]\w+", r".*\._\w+"], "x": [], "other": ""},
 ]
 FILES = {"target": ("target.py", TARGET), "direct": ("direct.py", DIRECT), "trans": ("trans.py", TRANS)}
 EDIT_OPS = {"editTarget": "target", "editDirect": "direct", "editTransitive": "trans"}
@@ -181,6 +211,18 @@ CORPUS = [
     [["changeOption", 2], ["runWithCache"], ["editTransitive", 1], ["runWithCache"], ["changeOption", 6],
      ["runWithCache"], ["editDirect", 1], ["runWithCache"], ["changeOption", 1], ["runWithCache"],
      ["editTransitive", 2], ["runWithCache"], ["editDirect", 3], ["runWithCache"]],
+    # big files (> 2 read blocks of padding): edits confined to the END of the transitive import,
+    # of the direct import and of the target must each be noticed
+    [["editTransitive", 3], ["runWithCache"], ["runWithCache"], ["editTransitive", 4], ["runWithCache"],
+     ["editDirect", 4], ["runWithCache"], ["editDirect", 5], ["runWithCache"], ["runWithCache"]],
+    [["editTarget", 4], ["runWithCache"], ["editTarget", 5], ["runWithCache"], ["editTarget", 4],
+     ["runWithCache"], ["runWithCache"]],
+    # -F patterns matching only member names: the followed modules stay dependencies
+    [["changeOption", 8], ["runWithCache"], ["editTransitive", 1], ["runWithCache"], ["runWithCache"],
+     ["changeOption", 9], ["runWithCache"], ["editDirect", 1], ["runWithCache"], ["editTransitive", 0],
+     ["runWithCache"]],
+    [["changeOption", 10], ["runWithCache"], ["editDirect", 1], ["runWithCache"], ["editTransitive", 2],
+     ["runWithCache"], ["editTransitive", 1], ["runWithCache"]],
 ]
 
 # exhaustive alphabet: parameterless toggles
@@ -753,6 +795,46 @@ def corruption_stream(res, tier, rng, model):
         shutil.rmtree(d, ignore_errors=True)
 
 
+# ------------------------------------------------------------------ hash probe
+
+def hash_probe_cases():
+    yield from ((n, None) for n in (0, 1, BLOCK - 1, BLOCK, BLOCK + 1, 2 * BLOCK - 1, 2 * BLOCK, 2 * BLOCK + 1,
+                                    3 * BLOCK + 17))
+    yield from ((n, 8) for n in range(0, 42))
+
+
+def hash_probe_one(d, n, blocksize):
+    from rattr.models.util.hash import hash_file_content
+
+    # the last byte differs from any byte before it, so every truncated digest is wrong
+    content = (b"0123456789abcdef" * (n // 16 + 1))[:max(n - 1, 0)] + (b"Z" if n else b"")
+    f = Path(d) / "blob.bin"
+    f.write_bytes(content)
+    got = impl.outcome_of(hash_file_content, f) if blocksize is None else \
+        impl.outcome_of(hash_file_content, f, blocksize=blocksize)
+    return got, md5(content)
+
+
+def hash_probe(res):
+    """`hash_file_content` must be md5 of the WHOLE file (the model's 'hash = content' assumption):
+    sizes around k * blocksize +- 1 with the default block size, and every size 0..41 with blocksize 8."""
+    d = tempfile.mkdtemp(prefix="c19p_", dir=TMPROOT)
+    try:
+        for n, bs in hash_probe_cases():
+            res.evaluations += 1
+            res.count("hash-probe")
+            got, want = hash_probe_one(d, n, bs)
+            if got != ("ok", want):
+                k = "exact-multiple" if n % (bs or BLOCK) == 0 else "not-a-multiple"
+                where = "first-block-only" if n > (bs or BLOCK) else "within-first-block"
+                res.violations.append({"signature": f"file-hash-not-md5-of-whole-content:{where}",
+                                       "case": {"stream": "hash-probe", "size": n, "blocksize": bs, "default_blocksize": BLOCK,
+                                                "size_class": k},
+                                       "impl": list(got)[:2], "expected": want})
+    finally:
+        shutil.rmtree(d, ignore_errors=True)
+
+
 # ------------------------------------------------------------------ run
 
 def run(tier, seed, build):
@@ -870,6 +952,8 @@ def run(tier, seed, build):
         res.violations.append({"signature": "other:plugins-hash-not-constant", "case": sorted(plugins_seen)})
 
     corruption_stream(res, tier, rng, model)
+    hash_probe(res)
+    res.extra["hash_block_size"] = BLOCK
 
     res.assumptions = [
         "frame hypothesis (Lean: Frame): results and recorded origins depend only on target path, hashed options, version, plugins and the content of the files the analysis reads; every file read is the target or a recorded origin — tested end-to-end by the from-scratch oracle, not proved",
@@ -895,6 +979,13 @@ def replay(path):
                 print("op", r["op"])
         mo = common.Model().batch([("cache_history", history_payload(case["ops"], recs, "?"))])[0]
         print("model:", [s["out"] for s in mo.get("steps", [])] if isinstance(mo, dict) and "steps" in mo else mo)
+    elif case.get("stream") == "hash-probe":
+        d = tempfile.mkdtemp(prefix="c19p_", dir=TMPROOT)
+        try:
+            got, want = hash_probe_one(d, case["size"], case["blocksize"])
+            print("hash_file_content:", got, "| md5 of the whole content:", want)
+        finally:
+            shutil.rmtree(d, ignore_errors=True)
     elif case.get("stream") == "corruption":
         d, _ = make_cache_project()
         try:
